@@ -1,4 +1,6 @@
 import IgrisModel.C12.Lemmas
+import IgrisModel.C12.LemParse
+import IgrisModel.C12.Orig
 /-!
   C12 — property theorems.
 
@@ -176,5 +178,89 @@ theorem ftoa_range_witness_binary32 : f32toa (⟨0x4f6e6b28⟩ : F32) 2 = none :
 /-- and a finite double beyond the float range renders as an infinity (1e300) -/
 theorem f64toa_range_witness :
     f64toa F64.toF32 (⟨0x7e37e43c8800759c⟩ : F64) 3 = some [43, 105, 110, 102] := by decide +kernel
+
+/-! ## C. the literal grammar  [+-] d* [ . d* ] [ (e|E) [+-] d+ ]
+
+  `Literal` (Spec.lean) is a decomposition sign / integer digits / optional
+  '.' + fraction digits / optional exponent; `L.text` its characters, `L.value`
+  the rational it denotes (digits / 10^#fraction-digits * 10^exponent, negated
+  for '-'), `Stops L rest` says that the bytes behind it (up to the end of the
+  allocation) contain the NUL and do not continue the literal (no digit; no
+  '.', no exponent start where one could still follow; no sign when the literal
+  is empty).  Exponent values up to 999999 (the code saturates beyond). -/
+
+/-- igris_atof64 (= igris_strtod = compat strtod; atof drops the end pointer):
+    for EVERY literal of the grammar followed by any such tail, over exact
+    arithmetic the value is the decimal value of the literal and the reported end
+    is the end of the literal. -/
+theorem atof64_grammar (L : Literal) (rest : List Nat) (hwf : L.WF) (hst : Stops L rest) :
+    atof64 (F := Rat) (L.text ++ rest) = some (L.value, L.text.length) :=
+  atof64_Q L rest hwf hst
+
+/-- the hypotheses are satisfiable: "-12.5e-3" followed by "x\0" -/
+example : atof64 (F := Rat) ([45, 49, 50, 46, 53, 101, 45, 51] ++ [120, 0]) = some (-(125 / 10000 : Rat), 8) := by
+  decide +kernel
+
+/-- igris_atof32 (and binreader::read_ascii_decimal_float): the same, for literals
+    whose integer part is below 2^32 and that have at most 18 fraction digits.
+    (The full statement is false, see the two witnesses.) -/
+theorem atof32_grammar_partial (L : Literal) (rest : List Nat) (hwf : L.WF) (hst : Stops L rest)
+    (hip32 : valL L.ip < 2 ^ 32) (hfp18 : L.fracDigits.length ≤ 18) :
+    atof32 (F := Rat) (D := Rat) id (L.text ++ rest) = some (L.value, L.text.length) :=
+  atof32_Q L rest hwf hst hip32 hfp18
+
+example : atof32 (F := Rat) (D := Rat) id ([43, 46, 53, 69, 50] ++ [0]) = some ((50 : Rat), 5) := by
+  decide +kernel
+
+/-- "4294967296": the integer part wraps modulo 2^32 (igris_atou32) -/
+theorem atof32_wrap_witness :
+    atof32 (F := Rat) (D := Rat) id [52, 50, 57, 52, 57, 54, 55, 50, 57, 54, 0] = some ((0 : Rat), 10) := by
+  decide +kernel
+
+/-- "0.1000000000000000000" (19 fraction digits): `local_pow(10, 19)` overflows `int64_t` -/
+theorem atof32_ub_witness :
+    atof32 (F := Rat) (D := Rat) id
+      [48, 46, 49, 48, 48, 48, 48, 48, 48, 48, 48, 48, 48, 48, 48, 48, 48, 48, 48, 48, 48, 0] = none := by
+  decide +kernel
+
+/-! ## D. the routines as they were before the `fix:` commits (Orig.lean) -/
+
+/-- "1e-2" was -100: the '-' of the exponent went to the mantissa sign -/
+theorem atof64Orig_sign_witness :
+    atof64Orig (F := Rat) [49, 101, 45, 50, 0] = some (-(100 : Rat), 4) ∧
+    atof64 (F := Rat) [49, 101, 45, 50, 0] = some ((1 / 100 : Rat), 4) := by
+  constructor <;> decide +kernel
+
+/-- "1ex": the 'e' was consumed although no exponent follows -/
+theorem atof64Orig_end_witness :
+    atof64Orig (F := Rat) [49, 101, 120, 0] = some ((1 : Rat), 2) ∧
+    atof64 (F := Rat) [49, 101, 120, 0] = some ((1 : Rat), 1) := by
+  constructor <;> decide +kernel
+
+/-- "+1.5", ".5", "abc": igris_atof32 returned 0 without storing `*pend` (modelled as `none`) -/
+theorem atof32Orig_guard_witness :
+    atof32Orig (F := Rat) (D := Rat) id [43, 49, 46, 53, 0] = none ∧
+    atof32Orig (F := Rat) (D := Rat) id [46, 53, 0] = none ∧
+    atof32 (F := Rat) (D := Rat) id [43, 49, 46, 53, 0] = some ((3 / 2 : Rat), 4) ∧
+    atof32 (F := Rat) (D := Rat) id [46, 53, 0] = some ((1 / 2 : Rat), 2) := by
+  refine ⟨?_, ?_, ?_, ?_⟩ <;> decide +kernel
+
+/-- "1e5": igris_atof32 ignored the exponent -/
+theorem atof32Orig_exponent_witness :
+    atof32Orig (F := Rat) (D := Rat) id [49, 101, 53, 0] = some ((1 : Rat), 1) ∧
+    atof32 (F := Rat) (D := Rat) id [49, 101, 53, 0] = some ((100000 : Rat), 3) := by
+  constructor <;> decide +kernel
+
+/-- debug_printdec_double_prec: 0.96 at one digit printed "0.10", 1.0 at three
+    digits "1.0000", 2.7 at zero digits "2.1"; the repaired routine prints
+    "1.0", "1.000", "3" -/
+theorem dprintOrig_witness :
+    dprintDoubleOrig (96 / 100 : Rat) 1 = some [48, 46, 49, 48] ∧
+    dprintDoubleOrig (1 : Rat) 3 = some [49, 46, 48, 48, 48, 48] ∧
+    dprintDoubleOrig (27 / 10 : Rat) 0 = some [50, 46, 49] ∧
+    dprintDouble (96 / 100 : Rat) 1 = some [49, 46, 48] ∧
+    dprintDouble (1 : Rat) 3 = some [49, 46, 48, 48, 48] ∧
+    dprintDouble (27 / 10 : Rat) 0 = some [51] := by
+  refine ⟨?_, ?_, ?_, ?_, ?_, ?_⟩ <;> decide +kernel
 
 end Igris.C12
